@@ -548,6 +548,7 @@ class Overlay:
         self.global_substs = []
         self.cfgname = None
         self.derive_guards = []
+        self.field_guards = []
 
     def load(self, path, assumed=False):
         """assumed=True: every function contract of this overlay is emitted as an assumed contract
@@ -600,6 +601,13 @@ class Overlay:
                 # is only valid while the derive is there
                 a = arg.split()
                 self.derive_guards.append((a[0], a[1:], rel, i))
+            elif d == "@fields":
+                # `@fields crate::OutputReader -> crate::OutputReader::Zeroize__zeroize : inner position_within_block`
+                # a contract that enumerates the fields of a struct (whole-state postconditions, `zeroed()`) is only
+                # about the whole state while the struct has exactly these fields
+                head, _, names = arg.partition(" : ")
+                ty, _, blame = head.partition("->")
+                self.field_guards.append((ty.strip(), blame.strip() or ty.strip(), names.split(), rel, i))
             elif d == "@localtrait":
                 self.traits.add(arg)
             elif d == "@gsubst":
@@ -1524,6 +1532,77 @@ def load_sources(repo, files, cfg):
 KEEP_DERIVES = ("Clone", "Copy")
 
 
+_INV = None
+
+
+def _trait_method_inventory():
+    """{source file (repo-relative): [paths of trait-impl methods]} of the pinned tree (contracts/trait_method_inventory.json,
+    written by tools/gen_inventory.py)"""
+    global _INV
+    if _INV is None:
+        import json
+        p = os.path.join(os.path.dirname(os.path.dirname(os.path.abspath(__file__))), "contracts", "trait_method_inventory.json")
+        try:
+            _INV = {k: set(v) for k, v in json.load(open(p)).items()}
+        except (OSError, ValueError):
+            _INV = {}
+    return _INV
+
+
+def struct_field_names(it):
+    """field names of a struct item with named fields; None for tuple / unit structs"""
+    body = it.body
+    if body is None:
+        # structs are kept as token runs: the field list is what stands between the first `{` and its `}`
+        ts = [t for t in it.toks if t.k not in ("ws", "comment")]
+        o = next((k for k, t in enumerate(ts) if t.s == "{"), None)
+        semi = next((k for k, t in enumerate(ts) if t.s in (";", "(")), None)
+        if o is None or (semi is not None and semi < o):
+            return None
+        d, c = 0, None
+        for k in range(o, len(ts)):
+            if ts[k].s == "{":
+                d += 1
+            elif ts[k].s == "}":
+                d -= 1
+                if d == 0:
+                    c = k
+                    break
+        if c is None:
+            return None
+        body = ts[o + 1:c]
+    toks = [t for t in body if t.k not in ("ws", "comment")]
+    names, depth, i = [], 0, 0
+    expect = True
+    while i < len(toks):
+        t = toks[i]
+        if t.s in ("(", "[", "{", "<"):
+            depth += 1
+        elif t.s in (")", "]", "}", ">"):
+            depth -= 1
+        elif depth == 0 and t.s == ",":
+            expect = True
+        elif depth == 0 and expect and t.s == "#":
+            # attribute: skip `# [ ... ]`
+            j = i + 1
+            d2 = 0
+            while j < len(toks):
+                if toks[j].s == "[":
+                    d2 += 1
+                elif toks[j].s == "]":
+                    d2 -= 1
+                    if d2 == 0:
+                        break
+                j += 1
+            i = j
+        elif depth == 0 and expect and t.k == "ident" and t.s not in ("pub", "crate", "in", "super", "self"):
+            if i + 1 < len(toks) and toks[i + 1].s == ":":
+                names.append(t.s)
+                expect = False
+        i += 1
+    return names
+
+
 def assemble(repo, unit, cfg, opts=None):
     """unit: dict with keys files [(rel, modpath)], overlays [paths], prelude [paths], spec [paths]."""
     from common import read
@@ -1580,6 +1659,25 @@ def assemble(repo, unit, cfg, opts=None):
             if nm not in it.derives:
                 LOST.append(("%s::%s" % (path, nm.lower()),
                              "assumption lost: #[derive(%s)] is no longer on %s (contract %s:%d)" % (nm, path, f, l)))
+    for ty, blame, names, f, l in ov.field_guards:
+        it = table.get(ty)
+        if it is None or it.kind != "struct":
+            continue
+        have = struct_field_names(it)
+        if have is not None and sorted(have) != sorted(names):
+            LOST.append((blame, "assumption lost: the fields of %s are now {%s}, the contract enumerates {%s} (%s:%d)"
+                         % (ty, ", ".join(have), ", ".join(names), f, l)))
+    # trait impls: a method that the pinned source did not have (an override of a provided method of the trait, whose
+    # default behaviour the contracts assumed) has no contract
+    inv = _trait_method_inventory()
+    for path, it in table.items():
+        parent = getattr(it, "parent", None)
+        if it.kind == "fn" and parent is not None and parent.kind == "impl" and parent.impl_trait:
+            rel_file = getattr(it, "file", None)
+            known = inv.get(rel_file)
+            if known is not None and path not in known and path not in wanted:
+                LOST.append((path, "assumption lost: new trait method %s in %s has no contract (the trait's provided "
+                                   "behaviour was assumed for the pinned source)" % (path, rel_file)))
     modules = {}
     for path, it in table.items():
         if path in wanted:
